@@ -82,6 +82,10 @@ def e1e2(R, spec, cfg, tag, canon, exe, env, D, budget, walks, L, seed, timeout=
     vplib.write_table(table, states, edges, inits, canon)
     rdir = os.path.join(vplib.VERIF, "replays")
     os.makedirs(rdir, exist_ok=True)
+    # the enumeration budgets are program counts; the driver also gets a wall-time budget well inside its timeout, so that a
+    # deep (thorough) exploration ends as "incomplete" instead of breaking the check
+    env = dict(env)
+    env.setdefault("GW_WALL_S", str(int(timeout * 0.7)))
     stats = run_driver(R, exe, [table, rdir, R.prop + "." + tag, D, budget, walks, L, seed], env, timeout, tag)
     vplib.cleanup(d)
     return stats
@@ -524,7 +528,7 @@ def build_core():
     return vplib.build("drv_core", ["utils", "mem", "structs", "thpool", "core"], ["drv_core.c"], extra_ldflags=CORE_WRAPS)
 
 
-def core_run(R, exe, cfg, mods, env, D, budget, walks, L, seed, maxpay=1, workers=4, timeout=2400, suffix=""):
+def core_run(R, exe, cfg, mods, env, D, budget, walks, L, seed, maxpay=1, workers=4, timeout=1500, suffix=""):
     tag = cfg.replace(".cfg", "") + suffix
     e = {"VP_MODS": ",".join(mods), "VP_MAXPAY": str(maxpay), "GW_FORK": "1", "GW_COVER_TAIL": "3"}
     if R.tier == "quick":
